@@ -34,3 +34,4 @@ open Model.CodecFacts in
 #print axioms decrypt_flow
 open Model.CodecFacts in
 #print axioms jsonable_v2_flow
+#print axioms join_heads_are_held_entries
